@@ -31,6 +31,7 @@ pub fn exec_look(ops: Vec<Op>, probes: Vec<(ATerm, &'static str)>, seed: u64) ->
     let probe_txt: Vec<String> = probes.iter().map(|(t, _)| format!("L{}", enc_term(t))).collect();
     let line = format!("eg main;{};{}", enc_ops(&line_ops), probe_txt.join(";"));
     let kinds: Vec<&'static str> = probes.iter().map(|(_, k)| *k).collect();
+    let probes0 = probes.clone();
     let r = in_fresh_thread(move || {
         intern_names();
         fresh_noise(&enc_ops(&line_ops));
@@ -42,6 +43,13 @@ pub fn exec_look(ops: Vec<Op>, probes: Vec<(ATerm, &'static str)>, seed: u64) ->
             match op {
                 Op::Add(t) => tracked.push(eg.add_expr(to_recexpr::<Main>(t))),
                 Op::Union(i, j) => {
+                    // every probe is looked up before every union as well (answers discarded): an answer given earlier must
+                    // not be what is answered later
+                    for (t, _) in &probes0 {
+                        let re = to_recexpr::<Main>(t);
+                        let _ = guarded(|| lookup_rec_expr(&re, &eg));
+                        let _ = guarded(|| eg.lookup(&re.node));
+                    }
                     let (a, b) = (tracked[*i].clone(), tracked[*j].clone());
                     eg.union(&a, &b);
                 }
